@@ -73,6 +73,11 @@ func (p *Parser) parseNext() error {
 		return p.parseOperator()
 	}
 
+	// The two text-showing operators that are not letters: ' and "
+	if c == '\'' || c == '"' {
+		return p.parseOperator()
+	}
+
 	// Otherwise, parse as operand
 	operand, err := p.parseOperand()
 	if err != nil {
